@@ -160,6 +160,14 @@ def run(ctx):
             ctx.violation("malformed-request", "malformed request %s: result %s, children before %s after %s" % (j["calls"][-2], rs[-2], rs[-3], rs[-1]), {"calls": j["calls"]})
         else:
             nok += 1
+    # the same rule at scale (thousands of label tuples per vector)
+    import bulk
+    nb = 0
+    for n in ((3000,) if ctx.quick else (3000, 70000)):
+        bj = bulk.vec_jobs(n)
+        br = run_api(ctx, exe, [{"id": j["id"], "calls": j["calls"]} for j in bj], "bulk", nproc=3)
+        nb += sum(1 for j in bj if bulk.judge_vec(ctx, j, br[j["id"]], "scale"))
+    ctx.cov["scale_scenarios_conforming"] = nb
     ctx.cov.update({
         "traces_validated_against_impl": nok,
         "pairs": len(cases), "executions": len(jobs) + len(mal), "executions_conforming": nok,
@@ -175,6 +183,9 @@ def run(ctx):
 def replay(path):
     d = json.load(open(path))
     rp = d["replay"]
+    if rp.get("bulk"):
+        import bulk
+        return bulk.replay(rp)
     ctx = Ctx("C05_replay", "quick", 0, LEVEL)
     exe = build_harness()
     rs = run_api(ctx, exe, [{"id": 0, "calls": rp["calls"]}], "replay")[0]
